@@ -114,7 +114,14 @@ func VerifC17Uint() {
 
 // VerifC17Scalars: string / ascii / bool / bytes / decimal64
 func VerifC17Scalars() {
+	// the model entry of the leaf may carry type options (a width, fraction digits, ...): they never change these values
 	rw := &adminapi.ReadWritePath{}
+	switch verifrt.Fork("typeopts", 3) {
+	case 1:
+		rw.TypeOpts = []uint64{verifrt.NondetUint64("opt0")}
+	case 2:
+		rw.TypeOpts = []uint64{verifrt.NondetUint64("opt0"), verifrt.NondetUint64("opt1")}
+	}
 	switch verifrt.Fork("kind", 5) {
 	case 0:
 		s := verifrt.NondetString("s", 3, "a1\"")
